@@ -13,7 +13,8 @@ import (
 // level 0; queries use check-sat-assuming over named Bool terms.
 type Solver struct {
 	cmd     *exec.Cmd
-	in      io.WriteCloser
+	inRaw   io.WriteCloser
+	in      *bufio.Writer
 	out     *bufio.Reader
 	emitted map[int]bool
 	funs    map[string]bool
@@ -55,10 +56,11 @@ func NewSolver(tb *TermBuilder, name string, timeoutS int) *Solver {
 func (s *Solver) start() {
 	s.cmd = exec.Command(s.Name, s.Args...)
 	var err error
-	s.in, err = s.cmd.StdinPipe()
+	s.inRaw, err = s.cmd.StdinPipe()
 	if err != nil {
 		panic(err)
 	}
+	s.in = bufio.NewWriterSize(s.inRaw, 1<<16)
 	o, err := s.cmd.StdoutPipe()
 	if err != nil {
 		panic(err)
@@ -76,7 +78,8 @@ func (s *Solver) start() {
 
 func (s *Solver) Close() {
 	if s.cmd != nil {
-		s.in.Close()
+		s.in.Flush()
+		s.inRaw.Close()
 		s.cmd.Process.Kill()
 		s.cmd.Wait()
 		s.cmd = nil
@@ -87,11 +90,12 @@ func (s *Solver) send(line string) {
 	if s.Log != nil {
 		fmt.Fprintln(s.Log, line)
 	}
-	io.WriteString(s.in, line)
-	io.WriteString(s.in, "\n")
+	s.in.WriteString(line)
+	s.in.WriteByte('\n')
 }
 
 func (s *Solver) readLine() string {
+	s.in.Flush()
 	l, err := s.out.ReadString('\n')
 	if err != nil {
 		panic(engineErr("solver %s died: %v", s.Name, err))
